@@ -1,7 +1,7 @@
 (* C11 - every metadata encoder is inverted by its decoder.  Property theorems only.
    Determinism of encoding is definitional: every enc_X is a Gallina function. *)
 From HV Require Import Base.Prelude Base.Outcome Base.Bytes Model.CodecMsg Proofs.CodecMsg
-  Model.CodecType Proofs.CodecType.
+  Model.CodecType Proofs.CodecType Model.CodecAttr Proofs.CodecAttr.
 
 Theorem C11_dataspace_roundtrip : forall x, wf_dataspace x = true ->
   dec_dataspace (enc_dataspace x) = Ok (proj_dataspace x).
@@ -48,3 +48,13 @@ Theorem C11_vlen_refuted :
             end.
 Proof. exact vlen_refuted. Qed.
 Print Assumptions C11_vlen_refuted.
+
+(* attribute message, version 3 (little-endian size fields, as the writer produces them) *)
+Theorem C11_attribute_roundtrip : forall x, wf_attribute x = true ->
+  dec_attribute false (enc_attribute x) = Ok (proj_attribute x).
+Proof. exact attribute_roundtrip. Qed.
+Print Assumptions C11_attribute_roundtrip.
+
+Theorem C11_attribute_len : forall x, wf_attribute x = true -> blen (enc_attribute x) = size_attribute x.
+Proof. exact attribute_blen. Qed.
+Print Assumptions C11_attribute_len.
